@@ -21,6 +21,7 @@ mod user;
 mod verif_seam;
 
 mod blocking;
+mod isolate;
 mod oracle16;
 mod scen;
 mod world;
